@@ -608,7 +608,7 @@ func init() {
 			"CJK, combining marks, ZWJ emoji sequences, VS16, regional indicators, tabs, CR, CRLF, NUL, DEL, soft hyphen and ill-formed UTF-8 (truncated, overlong, surrogate, > U+10FFFF, stray continuation), with leading/repeated/trailing newlines; " +
 			"grapheme clusters and rune widths of every string measured and of each of its lines are taken from the real uniseg / go-runewidth and the three oracle assumptions are checked on them; " +
 			"a case is non-trivial when the string is not empty; distinct = distinct (string, item kind, update chain, render mode)",
-		Exhaustive: "all strings of length <= 4 (quick: 781) / <= 5 (thorough: 3906) over the 5-symbol alphabet stored as a string and rendered as a body cell, and all of length <= 3 also in the five other item kinds (rendered as a header cell; the four mutable kinds with the six-step update chain)",
+		Exhaustive: "all strings of length <= 4 (quick: 781) / <= 5 (thorough: 3906) over the 5-symbol alphabet stored as a string and rendered as a body cell, and all of length <= 3 also in the five other item kinds (rendered as a header cell; the six-step update chain for the Stringer kinds, and for the error / GoStringer kinds up to length 2)",
 		Gen: func(r *RNG, tier string) []json.RawMessage {
 			var out []json.RawMessage
 			add := func(sp C18Spec) { out = append(out, mustJSON(sp)) }
@@ -623,7 +623,11 @@ func init() {
 				if n <= 3 {
 					add(c18SpecFull(prefix, 0, nil, 3+n%3))
 					for _, k := range []int{1, 2, 3, 5} {
-						add(c18SpecFull(prefix, k, c18Chain(prefix), 2))
+						if n <= 2 || k == 1 || k == 5 {
+							add(c18SpecFull(prefix, k, c18Chain(prefix), 2))
+						} else {
+							add(c18SpecFull(prefix, k, nil, 2))
+						}
 					}
 					add(c18SpecFull(prefix, 4, []string{""}, 2))
 				}
@@ -677,7 +681,7 @@ func init() {
 				sp.Conc = 8 + 8*(j%4)
 				add(sp)
 			}
-			n := 1500
+			n := 800
 			if tier == "thorough" {
 				n = 60000
 			}
